@@ -229,7 +229,7 @@ func c12R2(p *core.Prog, r *core.Report) {
 				if sl, ok := t.Underlying().(*types.Slice); ok {
 					t = sl.Elem()
 				}
-				if core.IsModNamed(t, "internal/reghttp", "clientHost") && h.Name() != "getHost" {
+				if core.IsModNamed(t, "internal/reghttp", "clientHost") && canon(h) != "getHost" {
 					scope[h] = true
 				}
 			}
@@ -237,7 +237,7 @@ func c12R2(p *core.Prog, r *core.Report) {
 	}
 	for _, f := range sortedFuncs(scope) {
 		fn := p.FuncName(f)
-		for _, c := range core.CallsTo(f, func(cal *types.Func) bool { return core.IsModMethod(cal, "internal/reghttp", "Client", "getHost") }) {
+		for _, c := range core.CallsTo(f, func(cal *types.Func) bool { return cal.Pkg() != nil && cal.Pkg().Path() == modPath("internal/reghttp") && canonObj(cal) == "getHost" }) {
 			arg := core.CallArg(c, 1)
 			os := core.Origins(arg, core.SliceOpts{})
 			own := core.AllOrigins(os, func(o core.Origin) bool { return o.Kind == core.OField && o.Field == "Host" })
@@ -307,7 +307,7 @@ func c12R3(p *core.Prog, r *core.Report) {
 					continue
 				}
 				// (c) listed pager
-				if why, ok := c12Pagers[fname]; ok {
+				if why, ok := c12Pagers[strings.TrimSuffix(fname, fn.Name())+canon(fn)]; ok {
 					if okp, d := pagerShape(p, l); okp {
 						r.Held(rule, fname, label, pos, "(c) "+why+"; "+d+"; "+detail)
 					} else {
@@ -316,7 +316,7 @@ func c12R3(p *core.Prog, r *core.Report) {
 					continue
 				}
 				// (d) chunk loop
-				if fn.Name() == "blobPutUploadChunked" {
+				if canon(fn) == "blobPutUploadChunked" {
 					c12ChunkLoop(p, r, rule, fn, l, label, pos)
 					continue
 				}
